@@ -37,13 +37,70 @@ KERNEL_OBLIGATIONS = {
 }
 
 
-def regen():
+def regen_groups(changed):
+    """T-gen for C03: point-group / space-group tables and their kernel-decided obligations"""
+    from . import groups
+    pg_text, sg_text, pgs, sgs = groups.generate()
+    bad_names = sorted(set(groups.known("name_ops")))
+    bad_sg = sorted(set(int(x) for x in groups.known("spacegroup")))
+    known = ("import OrixModel.Group\n/- GENERATED from /verif/known_findings.json (open C03 entries). Do not edit. -/\n"
+             "namespace Orix.Gen.C03Known\n"
+             f"def knownBadNames : List String := [{', '.join(json.dumps(x) for x in bad_names)}]\n"
+             f"def knownBadSG : List Nat := [{', '.join(map(str, bad_sg))}]\n"
+             "end Orix.Gen.C03Known\n")
+    for rel, text in (("OrixGen/PointGroups.lean", pg_text), ("OrixGen/SpaceGroups.lean", sg_text),
+                      ("OrixGen/C03Known.lean", known)):
+        if write_if_changed(os.path.join(LEAN, rel), text):
+            changed.append(rel)
+    gdir = os.path.join(LEAN, "OrixProofs", "GenAudit")
+    wanted = set()
+    n = len(pgs)
+    for k in range(n):
+        wanted.add(f"PG_{k}.lean")
+    # shared definition file + per-group obligations + aggregate
+    defs = ("import OrixModel.Group\nimport OrixGen.PointGroups\nimport OrixGen.C03Known\n"
+            "/- GENERATED (T-gen). Do not edit. -/\nnamespace Orix.GenAudit\nopen Orix.Grp Orix.Gen\n"
+            "/-- all single-group clauses, the subgroup query against the whole table, and the name clause\n"
+            "(which must fail exactly for the names listed as known findings) -/\n"
+            "def goodRec (r : GroupRec) : Bool :=\n  checkGroup r && checkSubgroups PG.all r &&\n"
+            "    (checkGroupName r == !C03Known.knownBadNames.contains r.name)\nend Orix.GenAudit\n")
+    if write_if_changed(os.path.join(gdir, "PG_Defs.lean"), defs):
+        changed.append("OrixProofs/GenAudit/PG_Defs.lean")
+    wanted.add("PG_Defs.lean")
+    for k in range(n):
+        body = ("import OrixProofs.GenAudit.PG_Defs\n/- GENERATED obligation (T-gen). Do not edit. -/\n"
+                "namespace Orix.GenAudit\nopen Orix.Grp Orix.Gen\n"
+                f"set_option maxRecDepth 100000 in\ntheorem pg_{k}_good : goodRec PG.g{k} = true := by decide +kernel\n"
+                "end Orix.GenAudit\n")
+        if write_if_changed(os.path.join(gdir, f"PG_{k}.lean"), body):
+            changed.append(f"OrixProofs/GenAudit/PG_{k}.lean")
+    agg = ("\n".join(f"import OrixProofs.GenAudit.PG_{k}" for k in range(n)) +
+           "\nimport OrixGen.SpaceGroups\n/- GENERATED aggregate of the C03 table obligations (T-gen). Do not edit. -/\n"
+           "namespace Orix.GenAudit\nopen Orix.Grp Orix.Gen\n"
+           "theorem all_good : PG.all.all goodRec = true := by\n  simp only [PG.all, List.all_cons, List.all_nil, "
+           + ", ".join(f"pg_{k}_good" for k in range(n)) + ", Bool.and_self]\n"
+           "set_option maxRecDepth 100000 in\n"
+           "theorem sg_bad_eq : sgBad PG.all SG.sgs = C03Known.knownBadSG := by decide +kernel\n"
+           "set_option maxRecDepth 100000 in\n"
+           "theorem sg_numbers : SG.sgs.map (·.number) = List.range' 1 230 := by decide +kernel\n"
+           "end Orix.GenAudit\n")
+    if write_if_changed(os.path.join(gdir, "C03Tables.lean"), agg):
+        changed.append("OrixProofs/GenAudit/C03Tables.lean")
+    wanted.add("C03Tables.lean")
+    for fn in os.listdir(gdir):
+        if fn.startswith("PG_") and fn.endswith(".lean") and fn not in wanted:
+            os.remove(os.path.join(gdir, fn))
+    return {"n_groups": n, "known_bad_names": bad_names, "known_bad_sg": bad_sg,
+            "names": [r["name"] for r in pgs],
+            "modules": ["OrixProofs.GenAudit.C03Tables"] + [f"OrixProofs.GenAudit.PG_{k}" for k in range(n)]}
+
+
+def regen(groups=False):
     """returns a status record; raises nothing for untranslatable kernels (they are recorded)"""
     text, kstatus = kernels.generate()
     changed = []
     if write_if_changed(os.path.join(LEAN, "OrixGen", "Kernels.lean"), text):
         changed.append("OrixGen/Kernels.lean")
-    write_if_changed(os.path.join(LEAN, "OrixGen.lean"), "import OrixGen.Kernels\n")
     obligations = {}
     gdir = os.path.join(LEAN, "OrixProofs", "GenAudit")
     os.makedirs(gdir, exist_ok=True)
@@ -62,7 +119,12 @@ def regen():
     for fn in os.listdir(gdir):
         if fn.endswith(".lean") and fn not in wanted and fn.startswith("K_"):
             os.remove(os.path.join(gdir, fn))
-    return {"kernels": kstatus, "obligations": obligations, "changed": changed}
+    gstat = None
+    if groups or not os.path.exists(os.path.join(LEAN, "OrixGen", "PointGroups.lean")):
+        gstat = regen_groups(changed)
+    write_if_changed(os.path.join(LEAN, "OrixGen.lean"),
+                     "import OrixGen.Kernels\nimport OrixGen.PointGroups\nimport OrixGen.SpaceGroups\nimport OrixGen.C03Known\n")
+    return {"kernels": kstatus, "obligations": obligations, "changed": changed, "groups": gstat}
 
 
 if __name__ == "__main__":
